@@ -257,11 +257,23 @@ def structured(res, T, rng, tier):
     for o in t.options:
         if o.min is None:
             continue
-        for v in (o.min - 1, o.min - 1000, o.max + 1, o.max + 104, 255, 256, 10 ** 6, -(10 ** 6)):
-            res.case((T, "clamp", o.name, v))
+        for v in (o.min - 1, o.min - 1000, o.max + 1, o.max + 104, 255, 256, 10 ** 6, -(10 ** 6), -3):
+          for lenient in (False, True):
+            res.case((T, "clamp", o.name, v, lenient))
             res.count("clamp_probes")
             mod = cls()
-            setattr(mod, o.name, v)
+            if lenient:
+                # the library's switch for CONTROLLER range errors says nothing about options: bounded options clamp
+                from rv.errors import override_raise_controller_value_errors as _ov
+                with _ov(False):
+                    setattr(mod, o.name, v)
+                rec = _options_record(__import__("rv.api").api.Synth(mod).read(), t, False)
+                if rec is not None and o.byte < len(rec) and o.size == 8 and rec[o.byte] != max(o.min, min(o.max, v)):
+                    res.violation(f"C11:clamp:{T}.{o.name}", f"{T}.{o.name} = {v} (controller errors downgraded): record byte {rec[o.byte]}, expected clamped {max(o.min, min(o.max, v))}",
+                                  {"type": T, "assign": [[o.name, v]], "lenient": True})
+                    continue
+            else:
+                setattr(mod, o.name, v)
             got = getattr(mod, o.name)
             want = max(o.min, min(o.max, v))
             if got != want:
@@ -360,6 +372,41 @@ def sampler_older_layouts(res, rng, n):
             bad = [(o.name, getattr(m, o.name), model.logical(o.name)) for o in t.options if _ival(getattr(m, o.name)) != _ival(model.logical(o.name))]
             if bad:
                 res.violation(f"C11:older-layout:{where.replace(' ', '-')}:Sampler.{bad[0][0]}", f"Sampler in layout {kind}: {where}: {bad[0][0]} is {bad[0][1]!r}, the file was written with {bad[0][2]!r}", case)
+                break
+
+
+def interleaved_writers(res, T, t, cls, rng, n):
+    """Two modules of the type with different options written AT THE SAME TIME (their chunk generators advanced alternately, as
+    two threads or tasks would): what each generator yields depends on its own module only."""
+    import rv.api as api
+    by = {o.name: o for o in t.options}
+    for k in range(n):
+        mods = []
+        for j in range(2):
+            m = cls()
+            for nm in rng.sample(sorted(by), rng.randint(1, len(by))):
+                setattr(m, nm, rng.choice(_all_values(by[nm])))
+            mods.append(m)
+        alone = [list(api.Synth(m).chunks()) for m in mods]
+        gens = [api.Synth(m).chunks() for m in mods]
+        together = [[], []]
+        live = [0, 1]
+        while live:
+            for j in list(live):
+                for _step in range(rng.randint(1, 3)):
+                    try:
+                        together[j].append(next(gens[j]))
+                    except StopIteration:
+                        live.remove(j)
+                        break
+        res.count("interleaved_writer_pairs")
+        res.case((T, "interleaved", k))
+        for j in range(2):
+            if [(a, bytes(b)) for a, b in together[j]] != [(a, bytes(b)) for a, b in alone[j]]:
+                diff = next((i for i, (x, y) in enumerate(zip(together[j], alone[j])) if (x[0], bytes(x[1])) != (y[0], bytes(y[1]))), None)
+                res.violation(f"C11:interleaved-writers:{T}", f"{T}: written alternately with another {T}, module {j} yields a different chunk #{diff} "
+                                                              f"({together[j][diff] if diff is not None and diff < len(together[j]) else None} vs alone {alone[j][diff] if diff is not None else None})",
+                              {"type": T, "interleaved": True})
                 break
 
 
@@ -548,6 +595,8 @@ def run_shard(spec_, res):
         random_full(res, spec_["type"], rng, spec_["n"])
         if spec_["type"] == "Sampler":
             sampler_older_layouts(res, rng, 40 if spec_["tier"] == "quick" else 300)
+        from rv.modules import MODULE_CLASSES
+        interleaved_writers(res, spec_["type"], spec.load()[spec_["type"]], MODULE_CLASSES[spec.load()[spec_["type"]].mtype], rng, 20 if spec_["tier"] == "quick" else 200)
     res.count("types_" + spec_["mode"])
 
 
